@@ -52,6 +52,32 @@ def gen_cases(tier, seed):
             dim = 2 + (i % 2)
             cm = W.gen_copula_model_spec(rng, dim=dim)
             cases.append({"model": cm, "grid": G.gen_grid_spec(rng, ctor, dim), "refine": int(rng.integers(0, (2 if not thorough else 4) + 1))})
+    # heavy-tailed margins (mean jump sizes of 5 .. 30): the truncation promised may lie beyond what the bound search can reach -- the
+    # constructor refuses, or returns a grid that keeps the promise
+    for i in range(4 if not thorough else 24):
+        m = W.gen_model_spec(rng, "HEM", exp=False)
+        m["params"]["eta1" if i % 2 == 0 else "eta2"] = W.r6(rng.uniform(0.03, 0.2))
+        ctor = ["uniform", "geometric", "credit"][i % 3]
+        g = G.gen_grid_spec(rng, ctor, 1)
+        g["h_div"] = W.r6(rng.uniform(20.0, 60.0))
+        if ctor != "credit":
+            g["p"] = float(rng.choice([0.99999, 0.999999]))
+        cases.append({"model": m, "grid": g, "refine": int(rng.integers(0, 2))})
+    # spatial steps that are not short decimal numbers, and very small ones refined many times (h must be halved exactly)
+    for i in range(6 if not thorough else 30):
+        dim = 1 + (i % 3)
+        m = W.gen_copula_model_spec(rng, dim=dim) if dim > 1 else W.gen_model_spec(rng, exp=False)
+        g = G.gen_grid_spec(rng, ["fixed", "geometric_bounds"][i % 2], dim)
+        if i % 3 == 0:
+            g["h"] = float(10.0 ** rng.uniform(-8, -6))
+            g["n"] = 7
+            if g["ctor"] == "geometric_bounds":
+                g["l"], g["r"], g["n_side"] = -float(g["h"] * rng.uniform(5, 50)), float(g["h"] * rng.uniform(5, 50)), 3
+            nref = int(rng.integers(5, 9))
+        else:
+            g["h"] = float(g["h"] * rng.uniform(0.9, 1.1) / 3.0)          # (not rounded to six decimals)
+            nref = int(rng.integers(1, 5))
+        cases.append({"model": m, "grid": g, "refine": nref})
     # hand-built grids, one array per axis with its own bounds (the base constructor)
     for i in range(4 if not thorough else 24):
         dim = 2 + (i % 2)
